@@ -45,7 +45,7 @@ ALL_LOGS = ["tState", "tRem"] + ALLOC_LOGS + RES_LOGS + COSTS + ["wpPlaced", "cS
 FOOTPRINT = {
     # pid: (fields, phases or None = any phase)
     "C01": (["tstate", "tState"], None),
-    "C02": (["rem", "tRem", "tstate"] + ALLOC + RES, ["perform", "finished", "init", "record", "free-run", "exception"]),
+    "C02": (["rem", "tRem", "tstate"] + ALLOC + RES, ["perform", "finished", "init", "record", "absence", "allocate", "working", "free-run", "exception"]),
     "C03": (ALLOC + RES + ALLOC_LOGS + RES_LOGS + ["tstate"], None),
     "C04": (ALLOC, ["allocate", "init", "finished", "free-run", "exception"]),
     "C05": (["time", "status", "tstate"], None),
@@ -73,7 +73,7 @@ def nontrivial(r):
     return r["steps"] >= 2 and r["feats"].get("alloc")
 
 
-def sim_runner(profile="full", quick=192, thorough=12000):
+def sim_runner(profile="full", quick=480, thorough=16000):
     def run(ctx):
         n = ctx.n(quick, thorough)
         results = simstream.run_stream(ctx.seed, n, profile, [ctx.pid])
